@@ -53,17 +53,17 @@ type c16Step struct {
 }
 
 type c16Case struct {
-	line    string
-	kind    string // system | standard | telnet
-	mode    string // shell | netconf
-	n       int
-	opening []byte // telnet: bytes the server sends on accept (negotiation + data)
-	ib      []byte // telnet: the data bytes of the opening
-	steps   []c16Step
-	ending  string // drain-close | block-close | block-exit | send-exit
-	endData []byte // send-exit payload
-	class   string
-	multi   bool // some payload exceeds the read size
+	line      string
+	kind      string // system | standard | telnet
+	mode      string // shell | netconf
+	n         int
+	opening   []byte // telnet: bytes the server sends on accept (negotiation + data)
+	ib        []byte // telnet: the data bytes of the opening
+	steps     []c16Step
+	ending    string // drain-close | block-close | block-exit | send-exit
+	endData   []byte // send-exit payload
+	class     string
+	multi     bool // some payload exceeds the read size
 	escapeOff bool // openssh: EscapeChar=none is among the ssh arguments
 }
 
@@ -690,7 +690,10 @@ func c16RunCase(cs *c16Case, seed uint64) *c16Out {
 			go func(d []byte) { werr <- tr.Write(d) }(st.data)
 			// a large write may need the client to keep reading (echo-free peers do not, but the pty
 			// relay and ssh windows may push back): read concurrently what is outstanding
-			pg, err := c16ReadFull(conn.peer, len(st.data), c16ReadBound)
+			// delivery bound: 10 s plus 10 s per 256 KiB (a mebibyte through ssh and a pty on a loaded
+			// machine is many thousand small reads and writes)
+			wb := c16ReadBound + time.Duration(len(st.data)>>18)*10*time.Second
+			pg, err := c16ReadFull(conn.peer, len(st.data), wb)
 			o.peerGot = append(o.peerGot, pg...)
 			if err != nil {
 				i := c16FirstDiff(pg, st.data[:c16min(len(pg), len(st.data))])
@@ -709,8 +712,8 @@ func c16RunCase(cs *c16Case, seed uint64) *c16Out {
 					o.aborted = true
 					return o
 				}
-			case <-time.After(c16ReadBound):
-				o.fail("oracle", "c16:"+cs.kind+":write-stuck", "Write(%d bytes) did not return within %v although the peer received them", len(st.data), c16ReadBound)
+			case <-time.After(wb):
+				o.fail("oracle", "c16:"+cs.kind+":write-stuck", "Write(%d bytes) did not return within %v although the peer received them", len(st.data), wb)
 				o.aborted = true
 				return o
 			}
